@@ -18,7 +18,7 @@ SIZES = {  # (number of types, values per type, depth)
 }
 MODEL_FILES = ['Model/Conv.v', 'Model/Values.v', 'Model/Types.v', 'Model/Expected.v', 'Run/AgreeConv.v', 'Model/Vocab.v',
                'Base/Outcome.v', 'Base/PyNum.v']
-MODEL_TABLES = ['GenScalars', 'GenGates', 'GenExcept']
+MODEL_TABLES = ['GenScalars', 'GenGates', 'GenExcept', 'GenConds']
 CONV_TARGETS = ['Run/AgreeConv.vo']
 
 
